@@ -1275,7 +1275,10 @@ char *KSI_PublicationData_toString(const KSI_PublicationData *t, char *buffer, s
 		goto cleanup;
 	}
 
-	len += KSI_snprintf(buffer + len, buffer_len - len, "Publication string: %s\nPublication date: %s", pubStr, KSI_Integer_toDateString(t->time, tmp, sizeof(tmp)));
+	if (KSI_Integer_toDateString(t->time, tmp, sizeof(tmp)) == NULL) {
+		KSI_snprintf(tmp, sizeof(tmp), "(not a calendar time)");
+	}
+	len += KSI_snprintf(buffer + len, buffer_len - len, "Publication string: %s\nPublication date: %s", pubStr, tmp);
 	KSI_snprintf(buffer + len, buffer_len - len, "\nPublished hash: %s", KSI_DataHash_toString(t->imprint, tmp, sizeof(tmp)));
 
 	ret = buffer;
